@@ -2,6 +2,7 @@
   Helper lemmas for property C11 (Model/TarFS.lean, Model/TarFSPath.lean).
 -/
 import ClairModel.Model.TarFS
+import ClairModel.Proofs.TarFSPath
 
 namespace ClairModel.TarFS
 
@@ -16,5 +17,140 @@ theorem again_over_dir (fs : FS) (kind : Kind) (k : Nat) (name : Bytes) (i : Nat
     again fs kind k name = .fail .exist := by
   unfold again
   simp [h, hk, hd]
+
+
+theorem again_over_file (fs : FS) (kind : Kind) (k : Nat) (name : Bytes) (i : Nat)
+    (h : fs.get? name = some i) (hk : kind.mtype = .regular) (he : (fs.ino i).kind.mtype = .regular) :
+    again fs kind k name = .replace i name := by
+  unfold again
+  simp [h, hk, he]
+
+/-- One hop of `Open` along a symbolic link: the link target, if `name`
+    resolves (by `getInode`) to a symbolic link. -/
+def linkStep (fs : FS) (name : Bytes) : Option Bytes :=
+  match getInode fs name with
+  | .ok i => if (fs.ino i).kind = .sym then some (fs.ino i).link else none
+  | .error _ => none
+
+/-- `m` hops along symbolic links starting at `name`. -/
+def linkIter (fs : FS) : Nat → Bytes → Option Bytes
+  | 0, name => some name
+  | m + 1, name =>
+    match linkStep fs name with
+    | some n' => linkIter fs m n'
+    | none => none
+
+theorem openAux_step {fs : FS} {name n' : Bytes} (k : Nat) (h : linkStep fs name = some n') :
+    openAux fs (k + 1) name = openAux fs k n' := by
+  unfold linkStep at h
+  simp only [openAux]
+  split at h
+  · rename_i i hi
+    split at h
+    · rename_i hk
+      simp at h; subst h
+      simp [hi, hk]
+    · simp at h
+  · simp at h
+
+/-- When `name` is not (resolved to) a symbolic link, the hop budget does not matter. -/
+theorem openAux_nolink {fs : FS} {name : Bytes} (h : linkStep fs name = none) (j j' : Nat) :
+    openAux fs (j + 1) name = openAux fs (j' + 1) name := by
+  unfold linkStep at h
+  simp only [openAux]
+  split at h
+  · rename_i i hi
+    split at h
+    · simp at h
+    · rename_i hk
+      simp only [hi]
+      cases hkind : (fs.ino i).kind <;> simp_all
+  · rename_i e he
+    simp [he]
+
+theorem openAux_chain {fs : FS} : ∀ (m : Nat) (name t : Bytes) (k : Nat),
+    linkIter fs m name = some t → openAux fs (k + m) name = openAux fs k t := by
+  intro m
+  induction m with
+  | zero => intro name t k h; simp [linkIter] at h; subst h; rfl
+  | succ m ih =>
+    intro name t k h
+    simp only [linkIter] at h
+    split at h
+    · rename_i n' hn'
+      rw [show k + (m + 1) = (k + m) + 1 by omega, openAux_step _ hn']
+      exact ih n' t k h
+    · simp at h
+
+/-- Link resolution: if `m` hops along symbolic links lead from `name` to `t`,
+    `t` is not a symbolic link and `m` is at most the number of inodes, then
+    `Open(name)` is `Open(t)`. -/
+theorem open_follows_chain (fs : FS) (m : Nat) (name t : Bytes)
+    (hchain : linkIter fs m name = some t) (hend : linkStep fs t = none)
+    (hm : m ≤ fs.inodes.length) : openFS fs name = openFS fs t := by
+  unfold openFS
+  obtain ⟨d, hd⟩ : ∃ d, fs.inodes.length + 1 = (d + 1) + m := ⟨fs.inodes.length - m, by omega⟩
+  rw [hd, openAux_chain m name t (d + 1) hchain, show d + 1 + m = (d + m) + 1 by omega]
+  exact openAux_nolink hend _ _
+
+/-- A chain of symbolic links that never ends is reported as an error
+    (fs.ErrInvalid); `Open` does not diverge. -/
+theorem openAux_endless {fs : FS} : ∀ (k : Nat) (name : Bytes),
+    (∀ m, ∃ t, linkIter fs m name = some t) → openAux fs k name = .err .invalid := by
+  intro k
+  induction k with
+  | zero => intro name _; simp [openAux]
+  | succ k ih =>
+    intro name h
+    obtain ⟨t1, h1⟩ := h 1
+    simp only [linkIter] at h1
+    split at h1
+    · rename_i n' hn'
+      rw [openAux_step k hn']
+      apply ih
+      intro m
+      obtain ⟨t, ht⟩ := h (m + 1)
+      simp only [linkIter, hn'] at ht
+      exact ⟨t, ht⟩
+    · simp at h1
+
+
+
+/-- Pigeonhole: a duplicate-free list of numbers below `n` has at most `n` elements. -/
+theorem nodup_length_le : ∀ (n : Nat) (l : List Nat), l.Nodup → (∀ x ∈ l, x < n) → l.length ≤ n := by
+  intro n
+  induction n with
+  | zero =>
+    intro l _ h
+    cases l with
+    | nil => simp
+    | cons a t => exact absurd (h a (by simp)) (by omega)
+  | succ n ih =>
+    intro l hnd h
+    have h1 : (l.erase n).Nodup := hnd.erase n
+    have h2 : ∀ x ∈ l.erase n, x < n := by
+      intro x hx
+      have := (hnd.mem_erase_iff).1 hx
+      have := h x this.2
+      omega
+    have := ih _ h1 h2
+    rw [List.length_erase] at this
+    split at this <;> omega
+
+theorem sym_index_lt (fs : FS) (i : Nat) (h : (fs.ino i).kind = .sym) : i < fs.inodes.length := by
+  apply Decidable.byContradiction
+  intro hge
+  have : fs.ino i = emptyInode := by
+    unfold FS.ino
+    simp [List.getD, List.getElem?_eq_none (Nat.le_of_not_lt hge)]
+  rw [this] at h
+  simp [emptyInode] at h
+
+/-- A chain of symbolic links that visits no inode twice has at most as many
+    links as there are inodes: the hop budget of `Open` is reached only on a cycle. -/
+theorem acyclic_chain_short (fs : FS) (idxs : List Nat) (hnd : idxs.Nodup)
+    (hsym : ∀ i ∈ idxs, (fs.ino i).kind = .sym) : idxs.length ≤ fs.inodes.length :=
+  nodup_length_le _ idxs hnd (fun i hi => sym_index_lt fs i (hsym i hi))
+
 
 end ClairModel.TarFS
